@@ -1,2 +1,2 @@
-import Hive.Model.KV
-def main : IO Unit := Hive.Proto.run Hive.KV.init Hive.KV.stepLine
+import Hive.Model.KVCopy
+def main : IO Unit := Hive.Proto.run Hive.KV.pinit Hive.KV.pstepLine
